@@ -65,18 +65,6 @@ def stepC08 (fields : List String) : String :=
     match parseTU a, parseTU b, fb x, fb y with
     | some u0, some u1, some x0, some x1 => lvOut (tempAdd tab u0 x0 u1 x1)
     | _, _, _, _ => "bad-op"
-  | ["c08.fixed.add", a, b, x, y] =>
-    match parseTU a, parseTU b, fb x, fb y with
-    | some u0, some u1, some x0, some x1 => lvOut (tempAddFixed tab u0 x0 u1 x1)
-    | _, _, _, _ => "bad-op"
-  | ["c08.fixed.diff", a, x, y] =>
-    match parseTU a, fb x, fb y with
-    | some u, some xa, some xb => lvOut (tempDiffFixed tab u xa xb)
-    | _, _, _ => "bad-op"
-  | ["c08.fixed.unary", op, p, a] =>
-    match parseUnOp op p, parseTU a with
-    | some o, some u => unitVOut (tempUnaryFixed tab o u)
-    | _, _ => "bad-op"
   | ["c08.sub", a, b, x, y] =>
     match parseTU a, parseTU b, fb x, fb y with
     | some u0, some u1, some x0, some x1 => lvOut (tempSub tab u0 x0 u1 x1)
